@@ -41,6 +41,8 @@ def project(lines, names=None):
             m = r["msg"]
             out.append({"e": "recv", "t": num(r["t"]), "ty": TY[m["type"]], "k": K[m["kind"]],
                         "from": num(m["from"]), "act": bool(m.get("actual", False))})
+        elif ev == "build_begin":
+            out.append({"e": "begin", "t": num(r["t"])})
         elif ev in ("vbuild_wait", "build_spawned"):
             out.append({"e": "start", "t": num(r["t"])})
         elif ev == "incr_checked" and r.get("skip"):
